@@ -141,27 +141,38 @@ structure SearchEv where
   source : Nat
   limit : Option Int
   found : Option Int
+  emptySigned : Bool
   hidden : List Nat
 
 def parseSearchEvs (rest : List (List String)) : List SearchEv :=
   (rest.filter (fun l => l.head? == some "hs")).filterMap fun l =>
     match l with
-    | _ :: ph :: hb :: src :: lim :: fnd :: w :: hid =>
+    | _ :: ph :: hb :: src :: lim :: fnd :: w :: es :: hid =>
       some { phase := ph.toNat!, hiddenBranch := hb == "1", source := src.toNat!,
              limit := if lim == "-" then none else lim.toInt?,
-             found := if fnd == "1" then w.toInt? else none, hidden := (natsOf hid).getD [] }
+             found := if fnd == "1" then w.toInt? else none, emptySigned := es == "1", hidden := (natsOf hid).getD [] }
     | _ => none
 
 /-- literal correspondence of the search loops of `mcb_sva_signed` with the model, phase by phase: which
 searches are issued (sources, hidden sets: `hiddenPairs` of the observed enumeration order, resp. one search
 per vertex) and what each search returns (the signed-graph distance in the graph with the hidden edges
 removed, below the limit) -/
-def validateSearches (id : String) (gI : Graph) (sups : List (List Nat)) (evs : List SearchEv) : Option String := Id.run do
+def validateSearches (id : String) (gI : Graph) (sups : List (List Nat)) (evs : List SearchEv) (tbb : Bool := false) : Option String := Id.run do
   let mut k := 0
   for S in sups do
-    let es := evs.filter (·.phase == k)
-    if S.length ≥ gI.n then
-      if es.map (·.source) != List.range gI.n then
+    let es0 := evs.filter (·.phase == k)
+    -- under a parallel schedule the searches of a phase arrive in any order: the enumeration order of the hidden-edge
+    -- heuristic is recovered from the sizes of the hidden sets
+    let es := if tbb then es0.mergeSort (fun a b => a.hidden.length ≥ b.hidden.length) else es0
+    if tbb && S.length == 1 then
+      match es with
+      | [e] =>
+        if !(e.emptySigned && e.hiddenBranch && [e.source] == S && e.hidden == S) then
+          return some s!"diff {id} phase {k} single-edge-shortcut searches [{e.source}] hidden [{showNats e.hidden}] expected [{showNats S}]"
+      | _ => return some s!"diff {id} phase {k} single-edge-shortcut issues {es.length} searches"
+    else if S.length ≥ gI.n then
+      let srcs := if tbb then setOf (es.map (·.source)) else es.map (·.source)
+      if srcs != List.range gI.n || es.length != gI.n then
         return some s!"diff {id} phase {k} all-vertices-branch searches-from [{showNats (es.map (·.source))}] expected every vertex once"
       if es.any (fun e => e.hiddenBranch || !e.hidden.isEmpty) then return some s!"diff {id} phase {k} wrong-branch"
     else
@@ -178,7 +189,7 @@ def validateSearches (id : String) (gI : Graph) (sups : List (List Nat)) (evs : 
     for e in es do
       let (a, b) := if e.hiddenBranch then (sgNode gI.n (gI.src e.source) true, sgNode gI.n (gI.tgt e.source) true)
                     else (sgNode gI.n e.source true, sgNode gI.n e.source false)
-      let d := (sgDijkstra (sgAdjHidden gI S e.hidden) a)[b]!
+      let d := (sgDijkstra (sgAdjHidden gI (if e.emptySigned then [] else S) e.hidden) a)[b]!
       match e.found, d with
       | some w, some dist =>
         if w != dist then return some s!"diff {id} phase {k} search-from {e.source} returns {w}, signed-graph distance {dist}"
@@ -216,8 +227,8 @@ def handleExact (c : Case) : String := Id.run do
       | .ok (total, bA, bH, brute) =>
         if total != ret then return s!"viol {c.id} ret returned={ret} emitted-weight={total}"
         let evs := parseSearchEvs rest
-        if var == "signed" && !evs.isEmpty then
-          match validateSearches c.id gI (phaseSupports v 0 sup0 cycI) evs with
+        if (var == "signed" || var == "signed_tbb") && !evs.isEmpty then
+          match validateSearches c.id gI (phaseSupports v 0 sup0 cycI) evs (var == "signed_tbb") with
           | some d => return d
           | none => pure ()
         return s!"ok {c.id} {g.n} {g.m} {dim} {total} {bA} {bH} {if brute then 1 else 0} {evs.length}"
